@@ -129,6 +129,31 @@ func c10(r *core.Run) {
 		f, ok := core.LoadedField(core.Strip(v))
 		return ok && f == defF
 	}
+	// ... and the other half: the change handler publishes its events itself, while the store's
+	// OnChange callback runs (i.e. under the writer's transaction): it does not hand them to the
+	// service's queue (With / WithResource / WithGroup) or to a goroutine, where they would be
+	// published after the transaction closed - a get in between already answers with the new value
+	// and the client then applies the events on top of it
+	{
+		deferred := ""
+		for _, h := range p.Helpers(chg) {
+			for _, f2 := range withAnon(h) {
+				for _, c := range core.Calls(f2) {
+					if core.IsGo(c) {
+						deferred = "go statement at " + p.InstrPos(c)
+					}
+					if cal := c.Common().StaticCallee(); cal != nil && cal.Signature.Recv() != nil && core.TypeName(cal.Signature.Recv().Type()) == "Service" {
+						switch cal.Name() {
+						case "With", "WithResource", "WithGroup":
+							deferred = cal.Name() + " at " + p.InstrPos(c)
+						}
+					}
+				}
+			}
+		}
+		r.Check(deferred == "", "G1", core.FuncName(chg), "events-published-inside-the-change-callback", p.Pos(chg.Pos()), "the change handler sends its events synchronously", "the change handler defers its events ("+deferred+"): they are published after the writer's transaction was closed, so a get that reads the new value can be answered before the events of that very change arrive - the client applies them on top of the new value (duplicated or wrong collection entries)")
+	}
+
 	// ---- S1: find the selection tests -----------------------------------
 	var createCall, deleteCall ssa.CallInstruction
 	for _, c := range core.Calls(chg) {
